@@ -1,5 +1,243 @@
-"""Verus engine (filled in below): single-file extraction of real functions + contracts."""
+"""Verus engine: single-file units (functions cut verbatim from the scratch copy + contracts)."""
+import json
+import os
+import re
+import subprocess
+import time
+
+import verus_extract
+from scratch import VERIF, Undecided
+
+CDIR = os.path.join(VERIF, "contracts", "verus")
+
+# unit -> (template, properties served, {fn name -> properties} overrides)
+UNITS = {
+    "loader": {"tpl": "loader.rs", "props": ["C12", "C09"]},
+    "mapper": {"tpl": "mapper.rs", "props": ["C16"]},
+    "printer": {"tpl": "printer.rs", "props": ["C17", "C09"]},
+    "interrupts": {"tpl": "interrupts.rs", "props": ["C18", "C09"]},
+    "transfer": {"tpl": "transfer.rs", "props": ["C08", "C14", "C04"]},
+    "assembler": {"tpl": "assembler.rs", "props": ["C08", "C12", "C14", "C16"]},
+    "lemmas": {"tpl": "lemmas.rs", "props": ["C05", "C07", "C12"]},
+}
+
+VERUS_TRUSTED = [
+    "Verus 0.2026.09.13 + its Z3; vstd's assumed specifications for Vec, HashMap<String,_> (obeys_key_model::<String>()), integer conversions",
+    "assumed: <usize as Into<usize>>::into is the identity (one external_body axiom; vstd has no spec for that instance)",
+    "assumed contracts of inc_addr and separate_bytes inside Verus units; both are discharged by Kani units l0_inc_addr / l0_separate_bytes",
+    "extractor rewrites R1-R6 (tuple-pattern parameters, ghost output log for print!, opaque format!, quantified stdin, attributes dropped, named ghost loop iterator)",
+]
+
+
+def fn_spans(text: str):
+    """(name, first line, last line, [ensures clause (line, text)]) for every fn/proof fn inside the file"""
+    out = []
+    lines = text.split("\n")
+    for m in re.finditer(r"^[ \t]*(?:pub )?(?:open spec |closed spec |spec |proof |broadcast proof )?fn (\w+)", text, re.M):
+        start = text.count("\n", 0, m.start()) + 1
+        # find the body's opening brace: first '{' at depth 0 that starts a line or follows the contract
+        i = m.end()
+        depth = 0
+        body_open = None
+        while i < len(text):
+            c = text[i]
+            if c in "([":
+                depth += 1
+            elif c in ")]":
+                depth -= 1
+            elif c == "{" and depth == 0:
+                # `{` of an `if ... {` inside the contract is at depth 0 as well: the body brace is the one
+                # that starts a line (our templates and the extracted bodies guarantee that)
+                ls = text.rfind("\n", 0, i) + 1
+                if text[ls:i].strip() == "":
+                    body_open = i
+                    break
+            elif c == ";" and depth == 0 and body_open is None and "{" not in text[m.end():i]:
+                break
+            i += 1
+        if body_open is None:
+            continue
+        try:
+            end = verus_extract.match_brace(text, body_open)
+        except Exception:
+            continue
+        last = text.count("\n", 0, end) + 1
+        head = text[m.start():body_open]
+        clauses = []
+        em = re.search(r"\bensures\b", head)
+        if em:
+            seg = head[em.end():]
+            base_line = text.count("\n", 0, m.start() + em.end()) + 1
+            cur, d, ln0 = "", 0, base_line
+            ln = base_line
+            for ch in seg:
+                if ch in "([{":
+                    d += 1
+                elif ch in ")]}":
+                    d -= 1
+                if ch == "\n":
+                    ln += 1
+                if ch == "," and d == 0:
+                    if cur.strip():
+                        clauses.append((ln0, ln, re.sub(r"\s+", " ", cur.strip())))
+                    cur = ""
+                    ln0 = ln
+                else:
+                    if not cur.strip():
+                        ln0 = ln
+                    cur += ch
+            if cur.strip():
+                clauses.append((ln0, ln, re.sub(r"\s+", " ", cur.strip())))
+        kind = "proof" if re.search(r"proof fn", text[m.start():m.end()]) else ("spec" if "spec fn" in text[m.start():m.end()] else "exec")
+        pre = text[max(0, m.start() - 200):m.start()]
+        if re.search(r"#\[verifier::external_body\]\s*(//[^\n]*\n\s*)*$", pre):
+            kind = "assumed"
+        out.append({"name": m.group(1), "start": start, "end": last, "clauses": clauses, "kind": kind})
+    return out
+
+
+def run_unit(unit: str, dst: str, root: str):
+    """expand + verify one unit; returns dict with per-function results"""
+    ex = verus_extract.Extractor(dst)
+    pre = verus_extract.expand(open(os.path.join(CDIR, "prelude.rs")).read(), ex)
+    body = verus_extract.expand(open(os.path.join(CDIR, UNITS[unit]["tpl"])).read(), ex)
+    text = pre + "\n" + body
+    # literal table for the ghost output log (R2)
+    if ex.literals:
+        tbl = "\n".join(f"//   out K={k}: {lit}" for k, lit in enumerate(ex.literals))
+        text = "// print literals (extractor rewrite R2):\n" + tbl + "\n" + text
+    vdir = os.path.join(root, "verus")
+    os.makedirs(vdir, exist_ok=True)
+    path = os.path.join(vdir, unit + ".rs")
+    open(path, "w").write(text)
+    keep = os.path.join(VERIF, ".cache", "logs")
+    os.makedirs(keep, exist_ok=True)
+    open(os.path.join(keep, f"verus_{unit}.rs"), "w").write(text)
+    t0 = time.time()
+    cmd = ["verus", path, "--output-json", "--time", "--multiple-errors", "20", "--rlimit", "60"]
+    try:
+        p = subprocess.run(cmd, stdout=subprocess.PIPE, stderr=subprocess.PIPE, text=True, timeout=1500)
+    except subprocess.TimeoutExpired:
+        raise Undecided(f"verus timed out on unit {unit}")
+    wall = time.time() - t0
+    open(os.path.join(keep, f"verus_{unit}.out"), "w").write(p.stdout + "\n=====\n" + p.stderr)
+    try:
+        js = json.loads(p.stdout[p.stdout.index("{"):])
+    except Exception:
+        raise Undecided(f"verus produced no JSON for unit {unit}:\n{p.stderr[-3000:]}")
+    vr = js.get("verification-results", {})
+    if vr.get("encountered-vir-error") or (not vr.get("success") and vr.get("verified", 0) == 0 and vr.get("errors", 0) == 0):
+        # rustc / VIR level error: construct outside Verus' subset or extraction problem: undecided
+        raise Undecided(f"unit {unit}: Verus rejected the extracted text (construct outside its subset / lost anchor):\n"
+                        + "\n".join(l for l in p.stderr.split("\n") if l.strip())[:3500])
+    spans = fn_spans(text)
+    errors = []
+    # human readable diagnostics on stderr: blocks starting with "error"
+    for blk in re.split(r"\n(?=error)", p.stderr):
+        if not blk.startswith("error"):
+            continue
+        if blk.startswith("error: aborting"):
+            continue
+        head = blk.split("\n")[0]
+        # attribute the error to the function that contains its PRIMARY location (the first `-->`):
+        # for a failed precondition that is the call site, for a failed postcondition the ensures clause
+        blk_main = blk.split("\nnote:")[0]
+        locs = [int(x) for x in re.findall(r"-->\s*\S+?:(\d+):\d+", blk_main)][:1]
+        errors.append({"head": head, "lines": locs, "text": blk_main[:1500]})
+    res = {"unit": unit, "wall": wall, "verified": vr.get("verified", 0), "errors_n": vr.get("errors", 0),
+           "fns": [], "rewrites": ex.rewrites, "functions": ex.functions, "path": path, "raw_err": p.stderr[-4000:],
+           "smt_ms": js.get("times-ms", {}).get("smt", {}).get("total") if isinstance(js.get("times-ms", {}).get("smt"), dict) else None,
+           "times": js.get("times-ms", {})}
+    for sp in spans:
+        if sp["kind"] == "spec":
+            continue
+        if sp["kind"] == "assumed":
+            res.setdefault("assumed", []).append(sp["name"])
+            continue
+        f = {"name": sp["name"], "kind": sp["kind"], "clauses": [], "total": "discharged", "messages": []}
+        mine = [e for e in errors if any(sp["start"] <= l <= sp["end"] for l in e["lines"])]
+        timeout = any("rlimit" in e["text"] or "resource limit" in e["text"].lower() or "timed out" in e["text"].lower() for e in mine)
+        failed_clause_lines = set()
+        other = False
+        for e in mine:
+            f["messages"].append(e["text"][:800])
+            if "postcondition not satisfied" in e["head"]:
+                fl = re.findall(r"^\s*(\d+) \|[^\n]*\n[^\n]*failed this postcondition", e["text"], re.M)
+                if fl:
+                    failed_clause_lines.update(int(x) for x in fl)
+                else:
+                    other = True
+            else:
+                other = True
+        for k, (l0, l1, txt) in enumerate(sp["clauses"]):
+            st = "discharged"
+            if any(l0 <= fl <= l1 for fl in failed_clause_lines):
+                st = "undecided" if timeout else "refuted"
+            f["clauses"].append({"k": k, "text": txt[:300], "status": st})
+        if other:
+            f["total"] = "undecided" if timeout else "refuted"
+        if failed_clause_lines and not any(c["status"] != "discharged" for c in f["clauses"]):
+            f["total"] = "undecided" if timeout else "refuted"
+        res["fns"].append(f)
+    return res
 
 
 def run_for_property(pid, tier, seed, dst, root, rep, findings):
-    return
+    import replay as replay_mod
+    todo = [u for u, d in UNITS.items() if pid in d["props"] and os.path.exists(os.path.join(CDIR, d["tpl"]))]
+    if not todo:
+        return
+    kf = [f for f in findings if f.get("status") == "known" and f.get("engine") == "verus"]
+    for a in VERUS_TRUSTED:
+        if a not in rep.assumptions:
+            rep.assumptions.append(a)
+    for unit in todo:
+        r = run_unit(unit, dst, root)
+        rep.extra.setdefault("verus_units", []).append({"unit": unit, "wall_s": round(r["wall"], 1), "verified": r["verified"],
+                                                        "errors": r["errors_n"], "times_ms": r["times"],
+                                                        "rewrites": sorted(set(r["rewrites"]))[:60]})
+        ntotal = 0
+        for f in r["fns"]:
+            fprops = fn_props(unit, f["name"])
+            if pid not in fprops:
+                continue
+            ntotal += 1
+            rep.functions.add(f"{unit}::{f['name']}")
+            allc = [(f"ensures#{c['k']}", c["status"], c["text"]) for c in f["clauses"]] + [("total", f["total"], "no overflow / index in bounds / callee preconditions / loop invariants / termination")]
+            for cname, st, txt in allc:
+                oid = f"verus:{unit}::{f['name']}"
+                known = [k for k in kf if k["unit"] == unit and k["fn"] == f["name"] and k["clause"] == cname]
+                if st == "refuted" and known:
+                    rep.known.append({"obligation": f"{oid}/{cname}", "what": known[0]["what"], "witness": known[0].get("witness", {}),
+                                      "region": "clause", "confirmed_this_run_by": "verus (obligation still unproved)"})
+                    continue
+                rep.add(oid, cname, "verus", "z3", st, r["wall"] / max(1, len(r["fns"])), f"{unit}::{f['name']}", "V")
+                rep.extra.setdefault("clause_text", {})[f"{oid}/{cname}"] = txt
+                if st == "refuted":
+                    path = record_verus(pid, unit, f, cname, txt, r)
+                    rep.violations.append({"obligation": f"{oid}/{cname}", "path": path, "confirmed": False})
+                elif st == "undecided":
+                    rep.undecided.append(f"verus {unit}::{f['name']}/{cname}: resource limit")
+        if ntotal == 0:
+            raise Undecided(f"verus unit {unit}: no function under contract was found for {pid}")
+
+
+def fn_props(unit, fn):
+    d = UNITS[unit]
+    ov = d.get("fn_props", {})
+    for pat, props in ov.items():
+        if re.fullmatch(pat, fn):
+            return props
+    return d["props"]
+
+
+def record_verus(pid, unit, f, cname, txt, r):
+    d = os.path.join(VERIF, "replays", pid)
+    os.makedirs(d, exist_ok=True)
+    path = os.path.join(d, f"verus_{unit}__{f['name']}__{cname.replace('#', '')}.json")
+    doc = {"property": pid, "obligation": f"verus:{unit}::{f['name']}/{cname}", "verifier": "verus 0.2026.09.13 / z3",
+           "clause": txt, "verifier_output": f["messages"][:4], "confirmed": False,
+           "note": "no-failing-input-found: Verus gives no model; the obligation was discharged on the pinned tree and is no longer provable",
+           "recipe": {"kind": "verus"}, "inputs": {}}
+    json.dump(doc, open(path, "w"), indent=1)
+    return path
